@@ -102,6 +102,7 @@ type Specs struct {
 	PropFuncs map[string][]string
 	WalkDirectives []string
 	Ghosts    map[string]int // ghost (uninterpreted) spec functions: name -> arity
+	GhostFields map[string]bool // mutable ghost state per object: heap array G.<name>, read as name(obj)
 }
 
 func NewSpecs() *Specs {
@@ -109,7 +110,7 @@ func NewSpecs() *Specs {
 }
 
 var clauseKeywords = map[string]bool{
-	"pred": true, "func": true, "extern": true, "ghost": true, "iface": true, "walk": true, "requires": true, "ensures": true, "preserves": true, "loop": true,
+	"pred": true, "func": true, "extern": true, "ghost": true, "ghostfield": true, "iface": true, "walk": true, "requires": true, "ensures": true, "preserves": true, "loop": true,
 	"funcparam": true, "mapspec": true, "assumefacet": true, "readonly": true, "dyncall": true, "inline": true, "trusted": true, "opaque": true, "noverify": true, "modifies": true, "pure": true, "arith": true, "axiom": true,
 }
 
@@ -269,6 +270,14 @@ func (S *Specs) parseFile(path string) error {
 			}
 			S.Ghosts[strings.TrimSpace(head[:op])] = n
 			cur = nil
+		case "ghostfield":
+			// ghostfield name: mutable ghost state attached to objects (heap array G.name indexed by the object's address);
+			// read in contracts as name(obj); changed only by calls whose contract lists "modifies G.name"
+			if S.GhostFields == nil {
+				S.GhostFields = map[string]bool{}
+			}
+			S.GhostFields[strings.TrimSpace(rest)] = true
+			cur = nil
 		case "iface":
 			// behavioural contract of an interface method of another package, keyed pkg.Iface.Method (e.g. io.Reader.Read);
 			// assumed for external implementations, verified for the repository's own implementations
@@ -356,7 +365,10 @@ func (S *Specs) parseFile(path string) error {
 			case "arith":
 				cur.ArithWrap = strings.TrimSpace(rest) == "wrap"
 			case "modifies":
-				for _, m := range strings.Split(rest, ",") {
+				for _, m := range strings.FieldsFunc(rest, func(r rune) bool { return r == ',' || r == ' ' || r == '\t' }) {
+					if m != "nothing" && !strings.HasPrefix(m, "M.") && !strings.HasPrefix(m, "H.") && !strings.HasPrefix(m, "G.") {
+						return fail(fmt.Errorf("modifies: %q is not a heap key (M.<type>, H.<pkg.Type>.<field>, G.<ghostfield>) or 'nothing'", m))
+					}
 					if m = strings.TrimSpace(m); m != "" {
 						cur.Modifies = append(cur.Modifies, m)
 					}
